@@ -195,6 +195,46 @@ func strValue(raw string) gv {
 		canon: "str:" + nfc(raw), strs: []string{raw}, fam: "str", cmp: true, hash: true, desc: fmt.Sprintf("String(%+q)", raw)}
 }
 
+// derivedStr: a String value that is NOT a literal but the result of real string operations on parts
+// (concat / join / replaceAll / slice); raw is the text it must be equal to.
+func derivedStr(how string, r *lib.Rng, a, b string) gv {
+	var iv *interpreter.StringValue
+	var raw, src string
+	A, B := interpreter.NewUnmeteredStringValue(a), interpreter.NewUnmeteredStringValue(b)
+	if r != nil && r.Bool() { // operands whose cluster length is already cached
+		A.Length(inter18)
+		B.Length(inter18)
+	}
+	switch how {
+	case "concat":
+		iv = A.Concat(inter18, B).(*interpreter.StringValue)
+		raw, src = nfc(a)+nfc(b), fmt.Sprintf("%s.concat(%s)", lit(a), lit(b))
+	case "join":
+		arr := interpreter.NewArrayValue(inter18, interpreter.VarSizedArrayOfStringType, common.ZeroAddress, A, B)
+		iv = interpreter.StringFunctionJoin(inter18, arr, interpreter.NewUnmeteredStringValue("")).(*interpreter.StringValue)
+		raw, src = nfc(a)+nfc(b), fmt.Sprintf("String.join([%s, %s], separator: \"\")", lit(a), lit(b))
+	case "replace":
+		base := interpreter.NewUnmeteredStringValue(a + "Z")
+		iv = base.ReplaceAll(inter18, interpreter.NewUnmeteredStringValue("Z"), B)
+		raw, _ = specReplaceRaw(nfc(a+"Z"), "Z", nfc(b))
+		src = fmt.Sprintf("%s.replaceAll(of: \"Z\", with: %s)", lit(a+"Z"), lit(b))
+	case "slice":
+		whole := interpreter.NewUnmeteredStringValue(a + b)
+		cl := clustersOf(nfc(a + b))
+		i, j := 0, len(cl)
+		if r != nil && len(cl) > 0 {
+			i = r.Intn(len(cl) + 1)
+			j = i + r.Intn(len(cl)-i+1)
+		}
+		iv = whole.Slice(inter18, interpreter.NewUnmeteredIntValueFromInt64(int64(i)), interpreter.NewUnmeteredIntValueFromInt64(int64(j))).(*interpreter.StringValue)
+		raw, src = strings.Join(cl[i:j], ""), fmt.Sprintf("%s.slice(from: %d, upTo: %d)", lit(a+b), i, j)
+	default:
+		panic(how)
+	}
+	return gv{coq: "Vs " + cpsList(raw), iv: iv, lit: src, typ: "String", canon: "str:" + nfc(raw), strs: []string{raw}, fam: "str",
+		cmp: true, hash: true, desc: fmt.Sprintf("String(%s)", strings.ReplaceAll(src, "\\u", "\\u"))}
+}
+
 func charValue(raw string) gv {
 	return gv{coq: "Vc " + cpsList(raw), iv: interpreter.NewUnmeteredCharacterValue(raw), lit: lit(raw), typ: "Character",
 		canon: "chr:" + nfc(raw), strs: []string{raw}, fam: "char", cmp: true, hash: true, desc: fmt.Sprintf("Character(%+q)", raw)}
@@ -713,9 +753,35 @@ func genTriple(r *lib.Rng) []gv {
 			}
 		}
 		return out
-	case 4, 5, 6, 7:
+	case 4, 5:
 		s := string(genFromPool(r, pool, 5))
 		return []gv{strValue(s), strValue(variant(r, s, pool)), strValue(variant(r, s, pool))}
+	case 6, 7: // strings built by operations from parts whose junction composes / merges, next to equivalent literals
+		var a, b string
+		if r.Chance(2, 3) {
+			sm := lib.Pick(r, seams)
+			a, b = string(genFromPool(r, pool, 2))+sm[0], sm[1]+string(genFromPool(r, pool, 2))
+		} else {
+			rs := genFromPool(r, pool, 5)
+			k := 0
+			if len(rs) > 0 {
+				k = r.Intn(len(rs) + 1)
+			}
+			a, b = string(rs[:k]), string(rs[k:])
+		}
+		how := func() string { return lib.Pick(r, []string{"concat", "concat", "join", "replace", "slice"}) }
+		other := func() gv {
+			switch r.Intn(4) {
+			case 0:
+				return strValue(nfc(a + b))
+			case 1:
+				return strValue(nfd(a + b))
+			case 2:
+				return strValue(a + b)
+			}
+			return derivedStr(how(), r, a, b)
+		}
+		return []gv{derivedStr(how(), r, a, b), other(), other()}
 	case 8, 9:
 		a := oneCluster(r)
 		alt := func() string {
@@ -1327,6 +1393,11 @@ func fixed18() [][]gv {
 		{strValue("e\u0301"), strValue("\u00e9"), strValue("e")},
 		{strValue("\u212b"), strValue("A\u030a"), strValue("\u00c5")},
 		{strValue(""), strValue("a"), strValue("ab")},
+		{derivedStr("concat", nil, "cafe", "\u0301"), strValue("caf\u00e9"), strValue("cafe\u0301")},
+		{derivedStr("join", nil, "e", "\u0301"), strValue("\u00e9"), derivedStr("concat", nil, "e", "\u0301")},
+		{derivedStr("replace", nil, "e", "\u0301"), strValue("\u00e9"), derivedStr("slice", nil, "e\u0301", "x")},
+		{derivedStr("concat", nil, "\u1112", "\u1161"), strValue("\ud558"), derivedStr("concat", nil, "\ud558", "\u11ab")},
+		{derivedStr("concat", nil, "a\u0301", "\u0323"), strValue("a\u0323\u0301"), strValue("\u1ea1\u0301")},
 		{strValue("\U0001F1E6\U0001F1E7"), strValue("\U0001F1E7\U0001F1E6"), strValue("\U0001F1E6")},
 		{charValue("e\u0301"), charValue("\u00e9"), charValue("e")},
 		{charValue("\ud55c"), charValue("\u1112\u1161\u11ab"), charValue("\ud558")},
